@@ -80,6 +80,14 @@ def gen_s1(rng, data: bytes, others: list[bytes]) -> list:
     kind = rng.choice(["trunc", "flip", "flip", "flipn", "zero", "copysec", "swapsec", "splice", "stale", "append", "wrongfile", "empty"]
                       if rng.random() < 0.97 else ["empty"])
     objs = object_offsets(data) if rng.random() < 0.12 else []
+    if objs and rng.random() < 0.4:
+        # lost write of a whole extent: everything from just inside an embedded object up to (about) the next one reads back as zeros
+        i = rng.randrange(len(objs))
+        nxt = [o for o in objs if o > objs[i]]
+        start = objs[i] + rng.choice([2, 2, 4, 20, 100, 600, 4096])
+        end = (nxt[0] - rng.choice([0, 8, 25, 64])) if nxt and rng.random() < 0.8 else min(n, start + rng.choice([65536, 262144, 1 << 20]))
+        if end > start:
+            return ["zero", start, end - start]
     if len(objs) >= 2:
         # misdirected write of a whole extent: the bytes of one embedded object (with d bytes of its record header) land on another
         i, j = rng.sample(range(len(objs)), 2)
@@ -186,6 +194,15 @@ def edit_member(data: bytes, edit: list) -> bytes:
     k = edit[0]
     if k == "trunc":
         return data[: edit[1] % (len(data) + 1)]
+    if k == "zerotail":
+        # the member keeps its recorded length but its tail was never written: from a point inside it (biased to just inside
+        # an embedded object) everything reads back as zeros
+        if not data:
+            return data
+        objs = object_offsets(data) if edit[2] >= 0 else []
+        o = (objs[edit[1] % len(objs)] + edit[2]) if objs else edit[1] % len(data)
+        o = min(o, len(data))
+        return data[:o] + bytes(len(data) - o)
     if k == "flip":
         b = bytearray(data)
         for o, bit in edit[1]:
@@ -291,7 +308,9 @@ def gen_edit(rng, data: bytes) -> list:
         if k == "num_attr":
             return ["num_attr", rng.randrange(1 << 20), rng.choice(BIG + [2, 3, 100, 5000, 1_048_576])]
         return ["del_attr", rng.randrange(1 << 20)]
-    k = rng.choice(["trunc", "flip", "flip", "u16", "u32", "empty"])
+    k = rng.choice(["trunc", "flip", "flip", "u16", "u32", "empty", "zerotail"])
+    if k == "zerotail":
+        return ["zerotail", rng.randrange(1 << 30), rng.choice([-1, 2, 4, 6, 20, 100, 600])]
     if k == "trunc":
         return ["trunc", rng.randrange(1 << 30)]
     if k == "flip":
